@@ -76,7 +76,8 @@ ITY = {float: "float", int: "int", bool: "bool", np.datetime64: "datetime"}
 
 
 def random_series(rnd, n):
-    kind = rnd.choice(["int", "float", "float_int", "bool", "str", "object", "date", "int01", "float01", "floatnan", "bigint"])
+    kind = rnd.choice(["int", "float", "float_int", "bool", "str", "object", "date", "int01", "float01", "floatnan", "bigint",
+                       "float_near_int", "float_near_int"])
     if kind == "int":
         return pd.Series([rnd.randint(-3, 40) for _ in range(n)], dtype="int64")
     if kind == "int01":
@@ -85,6 +86,10 @@ def random_series(rnd, n):
         return pd.Series([rnd.choice([2**53, 2**53 + 1, -(2**53) - 1, 2**60 + 7, 5]) for _ in range(n)], dtype="int64")
     if kind == "float":
         return pd.Series([rnd.choice([0.0, 1.0, 2.5, -1.25, 1e6, 0.1]) for _ in range(n)], dtype="float64")
+    if kind == "float_near_int":
+        # non-integral values whose fraction is small relative to their size, and integral ones of the same size
+        return pd.Series([rnd.choice([54321.5, 54322.0, 1958.01, 1958.0, 1e6 + 0.25, 1e6, 2.0**40 + 0.5, 2.0**40,
+                                      3.000000001, 3.0, 1e9 + 0.125, 7.0000001, 123456.75]) for _ in range(n)], dtype="float64")
     if kind == "float_int":
         return pd.Series([float(rnd.randint(-3, 40)) for _ in range(n)], dtype="float64")
     if kind == "float01":
@@ -207,6 +212,10 @@ def faults(rnd, df):
     # columns that cannot be converted without changing a value
     d = df.copy(); d["alter"] = d["alter"].astype(float); d.loc[i, "alter"] = d.loc[i, "alter"] + 0.5
     out.append(("non-integral float for an int input", d))
+    d = df.copy(); d["hh_id"] = d["hh_id"].astype(float) + 50000.0; d.loc[i, "hh_id"] = d.loc[i, "hh_id"] + 0.5
+    out.append(("non-integral float for an int input (large magnitude)", d))
+    d = df.copy(); d["geburtsjahr"] = d["geburtsjahr"].astype(float); d.loc[i, "geburtsjahr"] = d.loc[i, "geburtsjahr"] + 0.01
+    out.append(("non-integral float for an int input (year + 0.01)", d))
     d = df.copy(); d["kind"] = d["kind"].astype(int); d.loc[i, "kind"] = 2
     out.append(("value 2 for a bool input", d))
     d = df.copy(); d["bruttolohn_m"] = df["kind"].to_numpy()
